@@ -205,9 +205,19 @@ func accessorLaws(info *saml2.AssertionInfo, want *idp.Assertion) string {
 			}
 		}
 	}
-	absent := "no-such-attribute"
-	if vals.Get(absent) != "" || vals.GetSize(absent) != 0 || len(vals.GetAll(absent)) != 0 {
-		return "absent name"
+	// absent names: an unrelated one, and near misses of every present one (case variants, padding, a prefix, Unicode
+	// look-alikes): a name is an exact key
+	absents := []string{"no-such-attribute", ""}
+	for n := range seen {
+		absents = append(absents, strings.ToUpper(n), strings.ToLower(n), strings.Title(n), " "+n, n+" ", n+"\x00", n[:len(n)/2], strings.Replace(n, "s", "\u017f", 1), strings.Replace(n, "i", "\u0131", 1))
+	}
+	for _, absent := range absents {
+		if seen[absent] {
+			continue
+		}
+		if vals.Get(absent) != "" || vals.GetSize(absent) != 0 || len(vals.GetAll(absent)) != 0 {
+			return fmt.Sprintf("absent name %q gives a value", absent)
+		}
 	}
 	var nilv saml2.Values
 	if nilv.Get("x") != "" || nilv.GetSize("x") != 0 || len(nilv.GetAll("x")) != 0 {
